@@ -316,10 +316,7 @@ func buildPool(r *rng.R) ([]HistOp, []*filegen.File, []string) {
 		}
 		f := filegen.Gen(r, cfg)
 		files = append(files, f)
-		style := 1
-		if r.P(0.3) {
-			style = 2
-		}
+		style := []int{1, 1, 1, 2, 3, 4}[r.Intn(6)]
 		lr := rng.New(r.U64())
 		srcs = append(srcs, filegen.Join(f.Tokens(nil), style, lr.U64))
 	}
